@@ -578,7 +578,28 @@ def run_batch(geoms, with_reverse=True):
         nif = len(gm["interfaces"])
         n, m = len(gm["interfaces"][0]["points"]), len(gm["interfaces"][-1]["points"])
         path = gm.get("_path") or build(gm)
+        if nif >= 3 and rng.random() < 0.3:
+            # HISTORY on the Path object: other rays over the same points (an earlier, different ray tracing) are
+            # attached and looked at through from_path first; then the rays under test are attached
+            final_rays = path.rays
+            other = np.array(final_rays.interior_indices, copy=True)
+            for k_ in range(other.shape[0]):
+                other[k_] = rng.integers(0, len(gm["interfaces"][k_ + 1]["points"]), size=other.shape[1:])
+            path.rays = arim.ray.Rays(np.array(final_rays.times, copy=True), other, final_rays.fermat_path)
+            g0_ = arim.ray.RayGeometry.from_path(path)
+            for k_ in range(1, nif):
+                g0_.inc_leg_size(k_)
+            g0_.leg_points(1)
+            path.rays = final_rays
+            chk.count(rays_replaced_on_the_same_path=True)
         impl = query_all(path, rng)
+        # the velocities carried by the rays (used by the model code) are those of the path's legs, in leg order
+        for tag_, p_, want_v in (("", path, list(gm["vels"])),) + ((("path.reverse(): ", path.reverse(), list(reversed(gm["vels"]))),) if with_reverse else ()):
+            got_v = [float(v) for v in p_.rays.fermat_path.velocities]
+            if got_v != [float(v) for v in want_v] or [float(v) for v in p_.to_fermat_path().velocities] != got_v:
+                chk.violation("spec:ray_velocities", tag_ + "the velocities held by the rays (rays.fermat_path.velocities) are not the "
+                              "velocities of the path's legs in leg order",
+                              dict(geometry=geom_replay(gm), rays_velocities=got_v, leg_velocities=[float(v) for v in want_v]))
         model, mtimes = parse_driver(outs[per * t], nif, n, m)
         sf = spec_checks(gm, impl, exact=exact)
         mf = model_compare(gm, impl, model, exact=exact)
